@@ -155,8 +155,14 @@ func c08PropFilters(full bool) []caldav.PropFilter {
 				out = append(out, caldav.PropFilter{Name: n, TextMatch: tm, ParamFilter: pa})
 			}
 		}
-		for _, rg := range inst[1:] {
+		for ri, rg := range inst[1:] {
 			out = append(out, caldav.PropFilter{Name: n, Start: rg[0], End: rg[1]})
+			// RFC 4791 9.7.2: ((time-range | text-match)?, param-filter*) - a time range together with param-filters
+			for pi, pa := range c08ParamFilters()[1:] {
+				if full || (ri+pi)%3 == 0 {
+					out = append(out, caldav.PropFilter{Name: n, Start: rg[0], End: rg[1], ParamFilter: pa})
+				}
+			}
 		}
 	}
 	return out
@@ -238,16 +244,26 @@ func c08JudgeA(c c08ACase) (clause, detail string) {
 	if err != nil {
 		return "client", err.Error()
 	}
+	// what the caller expresses is fixed BEFORE the call; the call must not change the caller's value
 	var want indep.RCalReport
+	var before string
 	if c.Kind == "query" {
-		_, err = cl.QueryCalendar(context.Background(), c.Path, c.Query)
+		before = js(c.Query)
 		f := rCompFilter(c.Query.CompFilter)
 		want = indep.RCalReport{Root: "calendar-query", PropForm: "prop", CalData: rCalData(c.Query.CompRequest), Filter: &f}
+		_, err = cl.QueryCalendar(context.Background(), c.Path, c.Query)
+		if after := js(c.Query); after != before {
+			return "caller-value-modified", fmt.Sprintf("CalendarQuery before %s after %s", before, after)
+		}
 	} else {
-		_, err = cl.MultiGetCalendar(context.Background(), c.Path, c.Multi)
-		want = indep.RCalReport{Root: "calendar-multiget", PropForm: "prop", CalData: rCalData(c.Multi.CompRequest), Hrefs: c.Multi.Paths}
+		before = js(c.Multi)
+		want = indep.RCalReport{Root: "calendar-multiget", PropForm: "prop", CalData: rCalData(c.Multi.CompRequest), Hrefs: append([]string(nil), c.Multi.Paths...)}
 		if len(c.Multi.Paths) == 0 {
 			want.Hrefs = []string{c.Path} // documented behaviour: the collection itself
+		}
+		_, err = cl.MultiGetCalendar(context.Background(), c.Path, c.Multi)
+		if after := js(c.Multi); after != before {
+			return "caller-value-modified", fmt.Sprintf("CalendarMultiGet before %s after %s", before, after)
 		}
 	}
 	if err != nil {
